@@ -307,7 +307,7 @@ def main():
         flood_case(d, base, L, 'fixed', check_contained=True)
 
     # seeded random shapes: 4..400 cells
-    n_shapes = 260 if thorough else 30
+    n_shapes = 600 if thorough else 30
     kinds = ['poly', 'polyhole', 'line', 'box', 'circle']
     for n in range(n_shapes):
         base = [16, 32, 64][n % 3]
